@@ -1108,10 +1108,20 @@ func (ip *Interp) execLoop(fr *frame, lp *loopInfo, pred *ssa.BasicBlock, st *St
 		return fail("loop test is not an ordering comparison: " + c.String())
 	}
 	coef, other := c.P.coefOf(ctx.K)
-	if other || coef.Cmp(big.NewInt(-1)) != 0 {
+	if other || coef.Sign() >= 0 || !coef.IsInt64() {
 		return fail("loop test is not of the form iv < bound: " + c.String())
 	}
-	tripPoly := c.P.Add(normInt(ctx.K)).AddInt(1)
+	var tripPoly *Poly
+	if coef.Cmp(big.NewInt(-1)) == 0 {
+		tripPoly = c.P.Add(normInt(ctx.K)).AddInt(1)
+	} else {
+		// A - s*k >= 0 with a constant stride s > 1 (a loop that consumes s elements per iteration):
+		// k <= A/s, i.e. (A + s)/s iterations (truncating division: zero or negative when A + s <= 0)
+		s := new(big.Int).Neg(coef)
+		a := c.P.Add(normInt(ctx.K).Scale(s))
+		num := a.Add(polyConst(s))
+		tripPoly = normInt(canon(&Term{Op: OpDiv, Typ: intT, Args: []*Term{num.toTerm(), mkBig(s, intT)}}))
+	}
 	if tripPoly.mentions(func(x *Term) bool { return x.Op == OpAtom && strings.HasPrefix(x.Name, fmt.Sprintf("acc%d.", ctx.ID)) }) {
 		return fail("loop bound depends on a loop-carried value")
 	}
